@@ -15,7 +15,7 @@ _installed = {}
 
 class Frame:
     __slots__ = ("node", "cls", "items", "eat_parens", "eat_spaces", "entry", "joined", "nofmt",
-                 "sub", "regex_calls", "skipped", "parent", "done")
+                 "sub", "regex_calls", "skipped", "parent", "done", "events")
 
     def __init__(self, node, items, eat_parens, eat_spaces, entry, parent):
         self.node = node
@@ -31,6 +31,7 @@ class Frame:
         self.skipped = False
         self.parent = parent
         self.done = False
+        self.events = []         # consumption log: ("tok", start, end) / ("sub", node), in order
 
 
 class Recorder:
@@ -116,6 +117,8 @@ def install():
     def call(self, node):
         rec = _rec
         if rec is not None:
+            if rec.stack:
+                rec.stack[-1].events.append(("sub", node))
             rec.dispatching = True
             if getattr(self, "_" + node.__class__.__name__, None) is None:
                 rec.unknown.append(node.__class__.__name__)
@@ -147,6 +150,18 @@ def install():
                 rec.cur_regex = None
         return consume
 
+    def _wrap_consume(orig):
+        def consume(self, *a, **k):
+            r = orig(self, *a, **k)
+            rec = _rec
+            if rec is not None and not rec.dispatching and rec.stack:
+                rec.stack[-1].events.append(("tok", r[0], r[1]))
+            return r
+        return consume
+
+    S.consume = _wrap_consume(S.consume)
+    S.consume_joined_string = _wrap_consume(S.consume_joined_string)
+    S._consume_pattern = _wrap_consume(S._consume_pattern)
     W._handle = handle
     W.__call__ = call
     S.consume_string = _wrap_regex(orig_cs)
